@@ -254,6 +254,23 @@ CLAIMS["C19"] = dict(
     design_ref="DESIGN.md §3 C19",
 )
 
+CLAIMS["C20"] = dict(
+    technique="custom lint over type-checked HIR incl. derive expansions: writer/reader table agreement, forwarder shape rules, key-literal agreement, statement-order rule for the optional alpha",
+    category="other",
+    text=("On the all-features build (the `serializing` code the pinned tests never compile): every derived Serialize of the 20 colour types "
+          "emits exactly its non-phantom fields in declaration order under their own names, announces that count, and the derived "
+          "Deserialize's FIELDS is the same list (no metadata, no renames); the 5 hue types serialise the inner value as a newtype (bare "
+          "number in JSON). AlphaSerializer: 5 serialize_K add one to the length and forward to inner.serialize_K, 11 element methods forward "
+          "unchanged, all 7 end() emit self.alpha exactly once (key \"alpha\" for map/struct) before inner.end(). AlphaDeserializer: 5 "
+          "deserialize_K forward to the same inner method with len+1 and pass the original length as alpha index; the field visitor accepts "
+          "exactly \"alpha\" (str, bytes) or the index equal to that length; sequence visitors read the colour first and assign "
+          "seq.next_element()? as an Option (absent alpha = None); the map wrapper stores the alpha value and rejects duplicates; "
+          "Alpha/PreAlpha route through these types, require alpha (missing_field(\"alpha\")) while the optional-alpha helpers default to "
+          "max_intensity; as_array/as_uint use into_*_ref / from_*. Decides the structural agreement of writer and reader, a necessary "
+          "condition of the round trip; concrete JSON/RON round-trip equality is not decided."),
+    design_ref="DESIGN.md §3 C20",
+)
+
 NOT_YET = "check under construction (see DESIGN.md §7 build order); will be claimed when its rule is armed"
 NA = {}
 
